@@ -35,7 +35,7 @@ Definition ordered (ms : list member) (fwd : bool) := if fwd then ms else rev ms
 Definition chain_obs (ms : list ((N * list file * str) * bool)) (qs folders : list str) : list (list (list N)) :=
   let c := mk_chain ms in
   [map (fun q => code (chain_get (ordered c chain_get_forward) q)) qs]
-  ++ map (fun f => flat_map (fun x => [fst x; snd (snd x)]) (chain_walk chain_relmode chain_dedup_ops (ordered c chain_walk_forward) f)) folders.
+  ++ map (fun f => flat_map (fun x => [fst x; snd (snd x)]) (chain_walk_mode chain_dedup_mode chain_relmode chain_dedup_ops (ordered c chain_walk_forward) f)) folders.
 '''
 
 BACKENDS = ['virtual', 'zip', 'vpk', 'raw']
@@ -775,6 +775,8 @@ def run(ck: Ck) -> None:
             obs[f'{short}_walk_compares_normalised_key'] = f'walk_subject_normalised {cfg}'
             obs[f'{short}_walk_case_insensitive'] = f'negb (folder_not_folded {cfg})'
             obs[f'{short}_walk_sound_form'] = f'walk_ok {cfg}'
+            obs[f'{short}_walk_iterates_folded_dict'] = f'walk_over_dict {cfg}'
+            obs[f'{short}_walk_no_exact_case_prefilter'] = f'negb (prefilter_case_sensitive {cfg})'
         obs['virtual_walk_root_is_not_dot'] = 'negb (folder_root_is_dot virtual_cfg)'
         obs['raw_delegates_to_os'] = 'raw_is_os_exact'
         obs['chain_priority_inserts_first'] = 'Nat.eqb chain_prio_index 0'
@@ -783,6 +785,7 @@ def run(ck: Ck) -> None:
         obs['chain_walk_in_member_order'] = 'chain_walk_forward'
         obs['chain_walk_joins_prefix'] = 'match chain_walk_join_ops with cons OSlash nil => true | _ => false end'
         obs['chain_dedup_ignores_case'] = 'andb (forallb is_sf chain_dedup_ops) (has_fold chain_dedup_ops)'
+        obs['chain_dedup_keeps_first_member'] = 'match chain_dedup_mode with DedupSkip => true | DedupOverwrite => false end'
         obs['chain_walk_names_relative_to_prefix'] = 'match chain_relmode with RelDropSegs => true | RelPath => false end'
         ck.instance_obligations(IMPORTS, obs)
         import time as _t
@@ -805,6 +808,9 @@ def run(ck: Ck) -> None:
             ck.explain(f'instance:{short}_walk_compares_normalised_key')
         if any_key(f'walk-{short}-'):
             ck.explain(f'instance:{short}_walk_sound_form')
+            ck.explain(f'instance:{short}_walk_iterates_folded_dict')
+        if any_key(f'walk-{short}-case-sensitive', f'walk-{short}-misses', f'walk-{short}-backslash'):
+            ck.explain(f'instance:{short}_walk_no_exact_case_prefilter')
         if any_key(f'lookup-{short}-'):
             ck.explain(f'instance:{short}_keys_case_and_slash_insensitive')
     if any_key('chain-walk-name-not-relative-to-prefix'):
@@ -813,6 +819,8 @@ def run(ck: Ck) -> None:
         ck.explain('instance:chain_get_in_member_order')
         ck.explain('instance:chain_priority_inserts_first')
         ck.explain('instance:chain_get_joins_prefix')
+    if any_key('chain-walk-entry-not-from-first-member', 'chain-walk-listed-name-not-found'):
+        ck.explain('instance:chain_dedup_keeps_first_member')
     if any_key('chain-walk-'):
         ck.explain('instance:chain_walk_in_member_order')
         ck.explain('instance:chain_dedup_ignores_case')
